@@ -25,3 +25,6 @@ def run(ck):
     ck.cov["rule"] = ("random contractible pairs of sparse abelian arrays over Z2/U1/Z2Z2/U1U1/Z4, ranks 0-3, "
                       "every mode and axes form; distinct = distinct (inputs, axes, mode) programs")
     ck.conform(progs)
+    if ck.tier != "quick":
+        # the repository's own suite with integer data: value-level clauses on every small enough call
+        ck.suite_trace(intfill=True, limit=48)
